@@ -134,6 +134,9 @@ pub fn c09_sweep(max_l: usize) -> Vec<Program> {
                 for k in 0..=len + 2 {
                     stages.push(Stage::Take { k });
                 }
+                for k in 1..=3 {
+                    stages.push(Stage::StepBy { k });
+                }
                 for fill in [None, Some(fill_for(ty))] {
                     stages.push(Stage::FFill { fill: fill.clone() });
                     stages.push(Stage::BFill { fill });
@@ -302,7 +305,14 @@ pub fn c19_sweep(max_l: usize) -> Vec<Program> {
             if matches!(ty, Ty::I32 | Ty::Trk | Ty::OptF64) {
                 let data = pattern(ty, m, 1);
                 for b in 0..=max_l + 1 {
-                    for buf in [BufKind::Slice, BufKind::Deque, BufKind::NdView, BufKind::Sim, BufKind::OwnedVec] {
+                    for buf in [
+                        BufKind::Slice,
+                        BufKind::Deque,
+                        BufKind::NdView,
+                        BufKind::NdStrided,
+                        BufKind::Sim,
+                        BufKind::OwnedVec,
+                    ] {
                         for ops in pre.iter().take(2) {
                             if ops.len() > m {
                                 continue;
@@ -316,6 +326,48 @@ pub fn c19_sweep(max_l: usize) -> Vec<Program> {
                                 root: ViewOp::Titer,
                                 ops: ops.to_vec(),
                                 terminal: Terminal::HandOff(Sink::Write { buf, len: b }),
+                            }));
+                        }
+                    }
+                }
+            }
+            // untrusted iterators with a loose size hint into the plain collectors
+            for lm in [2usize, 3] {
+                let mut sinks = vec![];
+                for c in containers {
+                    sinks.push(Sink::PlainVec1(c));
+                    sinks.push(Sink::WithLen(c));
+                    if ty == Ty::OptF64 {
+                        sinks.push(Sink::OptCollect(c));
+                    }
+                }
+                for s in sinks {
+                    out.push(Program::Pipe(Pipe {
+                        ty,
+                        data: pattern(ty, m, if ty == Ty::OptF64 { 2 } else { 0 }),
+                        errs: vec![],
+                        fallible: false,
+                        backend: Backend::Sim,
+                        root: ViewOp::Titer,
+                        ops: vec![Op::Wrap(Stage::Loose { m: lm })],
+                        terminal: Terminal::HandOff(s),
+                    }));
+                }
+                if ty != Ty::Trk && ty != Ty::F64 {
+                    for errs in [vec![], vec![0], vec![m.saturating_sub(1)], vec![0, m.saturating_sub(1)]] {
+                        if errs.iter().any(|e| *e >= m) {
+                            continue;
+                        }
+                        for c in containers {
+                            out.push(Program::Pipe(Pipe {
+                                ty,
+                                data: pattern(ty, m, 0),
+                                errs: errs.clone(),
+                                fallible: true,
+                                backend: Backend::Sim,
+                                root: ViewOp::Titer,
+                                ops: vec![Op::Wrap(Stage::Loose { m: lm })],
+                                terminal: Terminal::HandOff(Sink::TryPlain(c)),
                             }));
                         }
                     }
